@@ -197,7 +197,13 @@ Fixpoint lookup3 (t : list (N * N * N)) (v c : N) : option N :=
 
 Record fire_in := {
   f_slot : N;
-  f_root : option N;            (* head root the node serves during this slot; None = request fails *)
+  f_root : option N;            (* head root the node serves during this slot ("head"); None = every root request fails *)
+  f_slot_root : option N;       (* root the node serves for this slot's NUMBER as block id: the block proposed in the slot, if it
+                                   has one by now; None = no block (yet) in this slot, the node answers 404.  The code asks for
+                                   "head" only, so nothing below depends on it: an empty slot costs no message. *)
+  f_sel_slow : bool;            (* the selection signer answers only after the slot's message time has come: whatever message
+                                   job exists by then runs first.  prepareMessageSyncCommittee schedules the message job after
+                                   Prepare has returned, so none exists and the chain below is unchanged (Model/C15_Slow.v) *)
   f_sel_err : bool;             (* SignSyncCommitteeSelections fails as a whole *)
   f_sel_zero : list N;          (* validators whose selection proof comes back zero *)
   f_hash8 : list (N * N * N);   (* (validator, subcommittee, LE64 of sha256(selection proof)), computed by the harness *)
@@ -334,6 +340,7 @@ Record agg_in := {
   a_accts : list N;             (* keys of duty.Accounts *)
   a_cached : option N;          (* root stored by SetBeaconBlockRoot for the slot, if any *)
   a_head : option N;            (* what the node answers for "head"; None = request fails *)
+  a_slot_root : option N;       (* what it answers for the slot's number; None = no block in the slot (404); never asked *)
   a_contrib_err : list N;
   a_cp_err : bool
 }.
